@@ -157,14 +157,14 @@ func headOf(c *G) *G {
 
 func runC09(outDir string, seed int64, tier string) {
 	f := feat{db: true}
-	open := openUpdatePrograms()
+	open := append(openUpdatePrograms(), openRetractPrograms()...)
 	runProgProperty("C09", outDir, seed, tier, func(r *rng, i int) *progCase {
 		if i < len(open) {
 			return open[i]
 		}
 		return &progCase{prog: genDbProgram(r, f), dynamic: true}
 	}, 1000+len(open), 8000+len(open),
-		"updates made while a call is open, exhaustively: d0/1 with k = 2..4 clauses, at the i-th answer of the open call clause j is retracted and one or two clauses are added at the end or at the front (or two clauses retracted and one added), every i, j; the open call's answers, a later call and the listing are observed; database histories over two dynamic predicates with initial clauses (facts, rules, duplicates, clauses with variables): 1-4 items, each a sequence of asserta/assertz/retract/retractall/abolish/clause/calls, or a failure-driven loop over an open call or an open retract issuing 1-3 updates, or a committed sequence; the final listing of both predicates through clause/2 and every answer are compared; distinct by program+query text; non-trivial = at least one answer or an error")
+		"an open retract/1 whose predicate is abolished (or emptied) and created again at its i-th answer, k = 2..4, every i, four shapes; updates made while a call is open, exhaustively: d0/1 with k = 2..4 clauses, at the i-th answer of the open call clause j is retracted and one or two clauses are added at the end or at the front (or two clauses retracted and one added), every i, j; the open call's answers, a later call and the listing are observed; database histories over two dynamic predicates with initial clauses (facts, rules, duplicates, clauses with variables): 1-4 items, each a sequence of asserta/assertz/retract/retractall/abolish/clause/calls, or a failure-driven loop over an open call or an open retract issuing 1-3 updates, or a committed sequence; the final listing of both predicates through clause/2 and every answer are compared; distinct by program+query text; non-trivial = at least one answer or an error")
 }
 
 func runC10(outDir string, seed int64, tier string) {
